@@ -18,6 +18,43 @@ CLAIMS = {
              "pyvc executor (differentially tested against CPython per obligation), z3",
         technique="deductive verification: VCs from the real AST, z3; sidecar contracts",
         design="5 (C04)", assumptions=["A1", "A2", "A3", "A5", "A7"]),
+    "C11": dict(
+        level="proof",
+        text="Viewbox.viewbox_transform is executed symbolically for all ten align values x {absent, align only, meet, "
+             "slice} (exhaustive) with symbolic positive element/viewBox sizes and arbitrary origins: the returned "
+             "transform text is one of four templates, a part is omitted only when it is the identity, its numerals "
+             "are the scale/translate of SVG 2 section 8.2, and Matrix(text) is that transform; lemmas prove "
+             "inside/over, touching and per-axis alignment; incomplete viewBox gives no transform; zero viewBox size "
+             "raises ZeroDivisionError only (SVG.parse turns that into 'rendering disabled': bounded check).",
+        note="floats as reals (A1): the 12-decimal formatting of the numerals is opaque (A5); SVG.parse defaulting of "
+             "width/height is document-level and only bounded-checked",
+        technique="deductive verification: VCs from the real AST, z3; sidecar contracts",
+        design="5 (C11)", assumptions=["A1", "A2", "A5", "A7"]),
+    "C12": dict(
+        level="proof",
+        text="Every cell of the Length tables is a verification condition over symbolic amounts, ppi and reference "
+             "sizes with the unit(s) fixed: value() for the 14 units (resolved by exactly the datum it needs, else "
+             "stays the Length itself), and +, -, /, ==, <,<=,>,>= exhaustively over the 196 ordered unit pairs: "
+             "commensurable pairs never raise and agree with the operation on resolved values (exact CSS ratios; the "
+             "six-digit inch constants within 2e-6 relative), incommensurable pairs raise ValueError only.",
+        note="floats as reals (A1); parsing of the length text (REGEX_LENGTH, float()) is an assumed runtime contract "
+             "(A5) exercised by a bounded check; six-digit constants 0.393701/0.0393701 accepted to 2e-6",
+        technique="deductive verification: VCs from the real AST, z3; sidecar contracts",
+        design="5 (C12)", assumptions=["A1", "A2", "A5", "A7"]),
+    "C13": dict(
+        level="proof",
+        text="Keyword chain: all 147 SVG keywords + transparent in four letter-case spellings against a table "
+             "transcribed from the specification (exhaustive). Word layout: rgb_to_int packing/clamping, every getter, "
+             "every component setter's frame (other channels bit-for-bit), packed get-after-set, __eq__ - for all "
+             "32-bit words (integer VCs, discharged through an exact bit-vector translation). rgb()/rgba()/percent "
+             "forms for all numeric arguments (clamping, rounding). hsl_to_int equals 255 x the CSS colour of the hue "
+             "modulo a full turn for every saturation/lightness and every hue fraction, whole turns -3..3 enumerated; "
+             "hsl()/hsla() text and the h/s/l setters are verified against that contract (modular rule). Hex forms on "
+             "representative digit strings; exhaustive 3/4-digit strings and Color(c.hex)==c are bounded checks.",
+        note="A1 reals; A4 integers mathematical; A5: regexes/int()/float()/str.lower run natively on concrete text, "
+             "numerals opaque; hue periodicity beyond |3| turns rests on Python's float % (A1)",
+        technique="deductive verification: VCs from the real AST, z3 (+ exact int->bit-vector backend); sidecar contracts",
+        design="5 (C13)", assumptions=["A1", "A2", "A4", "A5", "A7"]),
 }
 
 
